@@ -323,8 +323,7 @@ def _leafvals(shape):
             yield v
 
 
-def part_b_combinators(ctx, P):
-    from hypothesis import strategies as st
+def combinator_gfs():
     import jax.numpy as jnp
     from genjax import Cond, Scan, const, gen, normal
 
@@ -345,6 +344,14 @@ def part_b_combinators(ctx, P):
         "scan": (Scan(step, length=const(3)), {"a": jnp.arange(3.0), "b": jnp.arange(3.0) + 10}),
         "cond": (Cond(inner, inner), {"a": jnp.asarray(1.0), "b": jnp.asarray(2.0)}),
     }
+
+    return gfs
+
+
+def part_b_combinators(ctx, P):
+    from hypothesis import strategies as st
+
+    gfs = combinator_gfs()
 
     def one(case):
         env.reset()
@@ -565,6 +572,9 @@ def replay(case):
             return 0.0
 
         return check_partition(anyfn, fill(case["shape"]), case["expr"], "B")
+    if part == "Bc":
+        gf, x = combinator_gfs()[case["gf"]]
+        return check_partition(gf, x, case["expr"], "B." + case["gf"])
     if part == "C":
         return classify_c(case)[0]
     raise ValueError("unknown part")
